@@ -255,6 +255,8 @@ let apply_kv (c : config) (kv : string) : config =
   | _ -> failwith ("bad cfg item " ^ kv)
 
 type line =
+  | LHold of string * string * bytes
+  | LDrain of string * string
   | LSetSettings of n * bool * n
   | LOp of string * op           (* printable name, model op *)
   | LObs
@@ -267,6 +269,8 @@ let parse_line (cfg : config ref) (l : string) : line option =
   | t :: _ when t.[0] = '#' -> None
   | "cfg" :: kvs -> Some (LCfg kvs)
   | "fault" :: _ -> None
+  | ["hold"; slot; k] -> Some (LHold (l, slot, key_of k))
+  | ["drain"; slot] -> Some (LDrain (l, slot))
   | ["setsettings"; v; p; nn] -> Some (LSetSettings (n_of_decimal v, p = "1", n_of_decimal nn))
   | ["put"; k] -> Some (LOp (l, OpPut (key_of k, [])))
   | ["put"; k; cs] -> Some (LOp (l, OpPut (key_of k, parse_chunks cs)))
@@ -332,11 +336,28 @@ let run_lines (out : Buffer.t) (lines : string list) (fs0 : fs) (fault : int opt
   let hd = ref None in
   let since = ref 0 in
   let idx = ref 0 in
+  let held : (string, bytes) Hashtbl.t = Hashtbl.create 4 in
   List.iter (fun l ->
     match parse_line cfg l with
     | None -> ()
     | Some (LCfg kvs) -> cfg := List.fold_left apply_kv !cfg kvs
     | Some LObs -> obs_model out !hd !w since
+    | Some (LHold (name, slot, k)) ->
+      (* POSIX: an open file keeps its inode; in the model a reader is the file VALUE at open time *)
+      let r = (match !hd with
+          | None -> "closed"
+          | Some _ ->
+            let ((r, _), _) = step hash_fn !hd (OpGetReader k) !w in
+            (match r with
+             | OutBytes (Some b) -> Hashtbl.replace held slot b; "held"
+             | OutBytes None -> "none"
+             | x -> out_str x)) in
+      Buffer.add_string out (Printf.sprintf "R %d %s -> %s\n" !idx name r); incr idx
+    | Some (LDrain (name, slot)) ->
+      let r = (match Hashtbl.find_opt held slot with
+          | Some b -> Hashtbl.remove held slot; "bytes:" ^ show_content (string_of_bytes b)
+          | None -> "none") in
+      Buffer.add_string out (Printf.sprintf "R %d %s -> %s\n" !idx name r); incr idx
     | Some (LSetSettings (v, p, nn)) ->
       let d = enc_settings v p nn in
       let fs' = { !w.wfs with files = set_path !w.wfs.files PSettings { fdata = d; fsynced = length d } } in
